@@ -72,3 +72,9 @@ Print Assumptions C04_schema.
 Print Assumptions C04_rates_are_mean_fitness.
 Print Assumptions C04_error_check.
 Print Assumptions C04_stop_rule.
+
+(* state shared between objects (regenerated scan of the whole package: memoising decorators, mutable class attributes of non-pydantic classes, module-level
+   containers mutated by functions): there is none - the rate history and the stop state belong to ONE run of ONE instance *)
+Theorem C04_no_shared_mutable_state : gen_no_shared_mutable_state = true.
+Proof. reflexivity. Qed.
+Print Assumptions C04_no_shared_mutable_state.
